@@ -1,0 +1,10 @@
+//go:build verif
+
+package join
+
+import "time"
+
+// Verification hook (build tag verif): exposes calcInterruptIntervalNonPositiveAllowed.
+func VerifCalcInterruptInterval(timeout time.Duration, inaccuracy uint) (time.Duration, error) {
+	return calcInterruptIntervalNonPositiveAllowed(timeout, inaccuracy)
+}
